@@ -303,7 +303,7 @@ def _compute_stm(dynsys, x0, tf, steps=2000, forward=1, method: Literal["fixed",
     Notes
     -----
     - STM initialized as 6x6 identity matrix at t=0
-    - Backward integration uses DirectedSystem with momentum sign flipping
+    - Backward integration negates the whole variational right-hand side (state and STM blocks)
     - Combined 42D system enables simultaneous trajectory and linearization
     - STM satisfies d(Phi)/dt = F(x(t)) * Phi(t) where F is the Jacobian
 
@@ -326,7 +326,7 @@ def _compute_stm(dynsys, x0, tf, steps=2000, forward=1, method: Literal["fixed",
         steps=steps,
         method=method,
         order=order,
-        flip_indices=slice(36, 42),
+        flip_indices=None,
         **kwargs
     )
 
